@@ -236,7 +236,13 @@ func cmdCheck(argv []string) int {
 		}
 	}
 	if !*noEvidence {
-		writeEvidence(*prop, *tier, seed, results, reps, nObl, nDis, violations, knownHit, time.Since(start).Seconds())
+		nKnown := 0
+		for _, rep := range reps {
+			if strings.HasPrefix(rep.Status, "known-finding") {
+				nKnown++
+			}
+		}
+		writeEvidence(*prop, *tier, seed, results, reps, nObl-nKnown, nDis, violations, knownHit, time.Since(start).Seconds(), nKnown)
 	}
 	fmt.Printf("property %s: %d obligations, %d discharged, %d violations, %d known findings, %.1fs\n", *prop, nObl, nDis, violations, len(knownHit), time.Since(start).Seconds())
 	if violations > 0 {
@@ -300,7 +306,7 @@ func trimModel(m string) string {
 	return strings.Join(lines, "\n")
 }
 
-func writeEvidence(prop, tier string, seed int, results []*FuncResult, reps []*OblReport, nObl, nDis, violations int, known []string, wall float64) {
+func writeEvidence(prop, tier string, seed int, results []*FuncResult, reps []*OblReport, nObl, nDis, violations int, known []string, wall float64, nKnown int) {
 	os.MkdirAll("/verif/evidence", 0o755)
 	type fnEv struct {
 		*FuncResult
@@ -367,6 +373,7 @@ func writeEvidence(prop, tier string, seed int, results []*FuncResult, reps []*O
 			"discharged_by_backend":    bySolver,
 			"solver_time_s":            solverTime,
 			"known_findings_printed":   known,
+			"known_finding_obligations_excluded_from_the_count": nKnown,
 			"samples":                  samples,
 		},
 	}
